@@ -13,6 +13,7 @@ import (
 type MuxHistScenario struct {
 	Period int     `json:"period"`
 	Ops    []MuxOp `json:"ops"`
+	Enum   bool    `json:"enum,omitempty"` // member of the bounded-exhaustive family (informational)
 }
 
 type muxHist struct{}
@@ -26,12 +27,12 @@ func (muxHist) Runs(tier string) int64 {
 	if tier == "thorough" {
 		return 3000000
 	}
-	return 6000
+	return 40000
 }
 
 func (muxHist) Meta() core.EngineMeta {
 	return core.EngineMeta{
-		Rule:       "Seeded histories of AddElementaryStream/RemoveElementaryStream/SetPCRPID/WriteTables/WriteData/WritePacket (valid and invalid arguments, swarm-drawn weights, retransmit period 1..50) run on the real Muxer over a recording writer; after every call the bytes accepted so far are decoded by the reference TS/PSI decoder and compared with the MuxModel (DESIGN App. A). A run is non-trivial when it emitted at least one table pair and one unit; distinct = distinct abstract fingerprints: the set of (previous op, op, outcome class) 3-grams of the history together with the reach probes hit.",
+		Rule:       "Three quarters of the runs: seeded histories of AddElementaryStream/RemoveElementaryStream/SetPCRPID/WriteTables/WriteData/WritePacket (valid and invalid arguments, swarm-drawn weights, retransmit period 1..50) run on the real Muxer over a recording writer; after every call the bytes accepted so far are decoded by the reference TS/PSI decoder and compared with the MuxModel (DESIGN App. A). A run is non-trivial when it emitted at least one table pair and one unit; One quarter: bounded-exhaustive enumeration of all operation sequences over an 8-letter alphabet {add A, add auto, remove A, setpcr A, setpcr invalid, tables, data A, data A with RAI}, shortest first, periods 1 and 2 (complete up to length 3 in the quick tier, up to length 6 in the thorough tier; reach probes enum-len-N count them). distinct = distinct abstract fingerprints: the set of (previous op, op, outcome class) 3-grams of the history together with the reach probes hit.",
 		Real:       []string{"astits.Muxer and everything below it (packet/PES/PSI/descriptor writers, astikit.BitsWriter)"},
 		Stub:       []string{"SimWriter (recording io.Writer, fault-free in this engine)", "refts reference TS/AF/PSI decoder", "MuxModel (stream list, PCR PID, retransmit counter, dirty flag, continuity tracking)"},
 		FaultKinds: []string{"rejected:data-unknown-pid", "rejected:tables", "rejected:packet-oversize", "rejected:add-duplicate", "rejected:remove-absent", "rejected:data-tables-impossible"},
@@ -334,7 +335,54 @@ func GenMuxOps(r *core.PRNG, n int, period int, rich, invalid, allowDisc, big bo
 	return ops
 }
 
+// enumHistory decodes k into the k-th operation sequence (shortest first) over the 8-letter
+// alphabet {add A, add auto, remove A, setpcr A, setpcr invalid, tables, data A, data A with RAI}.
+func enumHistory(k int64) []MuxOp {
+	length := 1
+	for pow := int64(8); k >= pow; pow *= 8 {
+		k -= pow
+		length++
+	}
+	digits := make([]int, length)
+	for i := length - 1; i >= 0; i-- {
+		digits[i] = int(k % 8)
+		k /= 8
+	}
+	const pidA = 0x101
+	var ops []MuxOp
+	lastAdd := -1
+	for i, d := range digits {
+		switch d {
+		case 0:
+			ops = append(ops, MuxOp{Op: "add", H: -1, PID: pidA, Type: 0x1b})
+			lastAdd = i
+		case 1:
+			ops = append(ops, MuxOp{Op: "add", H: -1, PID: 0, Type: 0x0f})
+		case 2:
+			ops = append(ops, MuxOp{Op: "remove", H: lastAdd, PID: pidA})
+		case 3:
+			ops = append(ops, MuxOp{Op: "setpcr", H: lastAdd, PID: pidA})
+		case 4:
+			ops = append(ops, MuxOp{Op: "setpcr", H: -1, PID: 0x1ff0})
+		case 5:
+			ops = append(ops, MuxOp{Op: "tables", H: -1})
+		case 6:
+			ops = append(ops, MuxOp{Op: "data", H: lastAdd, PID: pidA, PES: &PESSpec{StreamID: 0xe0}, Len: 10, Tag: i + 1})
+		default:
+			ops = append(ops, MuxOp{Op: "data", H: lastAdd, PID: pidA, PES: &PESSpec{StreamID: 0xe0}, Len: 200, Tag: i + 1, AF: &refts.AF{RAI: true}})
+		}
+	}
+	return ops
+}
+
 func (muxHist) Generate(r *core.PRNG, tier string, idx int64) any {
+	// Every fourth run index enumerates operation sequences over a small alphabet, shortest
+	// first, for periods 1 and 2 (bounded-exhaustive: all sequences up to length 3 in the
+	// quick tier, up to length 6 in the thorough tier); the rest are seeded histories.
+	if idx%4 == 0 {
+		k := idx / 4
+		return &MuxHistScenario{Period: 1 + int(k%2), Ops: enumHistory(k / 2), Enum: true}
+	}
 	sc := &MuxHistScenario{}
 	switch r.Pick(2, 3, 2, 1) {
 	case 0:
@@ -404,6 +452,9 @@ func (muxHist) Execute(scAny any, keepLog bool) *core.Outcome {
 		}
 		grams[prev+">"+cls] = true
 		prev = cls
+	}
+	if sc.Enum {
+		out.Probe(fmt.Sprintf("enum-len-%d", len(sc.Ops)))
 	}
 	if units > 0 && tables > 0 {
 		fp := core.Dump(sortedKeys(grams)) + core.Dump(sortedKeys64(out.Probes))
